@@ -104,6 +104,8 @@ def gen(rng, k):
         # room left below 254 for every possible loss (two at most here), as in C04's quantifier: an arbitrary-address-capable
         # CA that runs off the end of the range claims 254, 255, ... (the library's own TODO "check the address range")
         pref = 248 + (pref - 252)
+    if aac and rng.random() < 0.15:
+        pref = rng.choice([246, 247])          # the end of the dynamic range: the next address after a loss is 247 / 248
     bypass = rng.random() < 0.15
     nameX = gen_ca.mk_name(rng, aac) | (1 << 40)
     # "started with claiming bypassed" without a preferred address: there is no address to hold, every send must raise
@@ -198,6 +200,7 @@ def oracle(sc, res):
                 if (e[3] & 0xFF) != addr:
                     v.append(dict(kind='wrong-source-address', op=ev['op'], t=ev['t'], id=hex(e[3]), held=addr))
     # every frame stack 0 ever put on the bus: claim / cannot-claim / request-for-claim from 254, or SA = a held address
+    announced = None          # the address of the latest address-claimed frame this node put on the bus (None: it never announced one)
     for e in res.trace:
         if e[2] == 'tx' and e[1] == 0:
             sa = e[3] & 0xFF
@@ -206,7 +209,12 @@ def oracle(sc, res):
             if (pgnf & 0xFFFF) == 0xEEFF and len(e[6]) == 8 and sa in (254,) + tuple(range(0, 254)):
                 # an address claim: allowed from the announced address or 254 (checked by C04); but an application
                 # send_pgn(EE..) of an operational CA also lands here
+                announced = sa
                 continue
+            if announced is not None and sa not in (254, 255) and sa != announced and ((pgnf >> 8) & 0xFF) not in (0xEB, 0xEC) and len(sc['stacks'][0]['cas']) == 1:
+                # an address it holds is an address it has told the others about: the one of its latest address-claimed frame
+                v.append(dict(kind='application-frame-from-an-address-it-never-announced', t=e[0], id=hex(e[3]), announced=announced))
+                break
             if sa == 254 and ((pgnf >> 8) & 0xFF) == 0xEA:
                 if len(e[6]) >= 3 and (e[6][0] | (e[6][1] << 8) | (e[6][2] << 16)) != 0xEE00:
                     v.append(dict(kind='request-from-the-null-address-for-another-pgn', t=e[0], id=hex(e[3]), data=list(e[6])))
